@@ -51,6 +51,7 @@ type Val struct {
 	OriginT types.Type
 	Seq     *seqView // slice seen as a value sequence (spec functions)
 	SetSort string   // ghost set values: SMT sort (Array K Bool)
+	Tag     string   // "param:<name>" for function-typed parameters (callback contracts)
 }
 
 // State is the symbolic store at a program point.
